@@ -136,6 +136,9 @@ def kenc(value, unpicklable=True, **kw):
     by SET_ORDER (hash-seed oracle)."""
     if _has_unserializable(value):
         raise TypeError('value is not serializable (model)')
+    if not unpicklable:
+        # jsonpickle without type tags: tuples / sets become plain arrays, objects plain dicts of their attributes
+        return _k(_lossy(value))
     return _k(value)
 
 
